@@ -46,6 +46,22 @@ def try_bitblast(pc, goal, rlimit):
         return None
 
 
+def _fresh_context_check(pc, goal, rlimit, seed=0):
+    ctx = z3.Context()
+    s = z3.Solver(ctx=ctx)
+    s.set("rlimit", rlimit)
+    s.set("timeout", 300000)
+    s.set("random_seed", seed)
+    try:
+        for c in pc:
+            s.add(c.translate(ctx))
+        s.add(z3.Not(goal.translate(ctx)))
+        r = s.check()
+    except z3.Z3Exception:
+        return None
+    return "unsat" if r == z3.unsat else ("sat" if r == z3.sat else None)
+
+
 def discharge(ob, tier="quick", want_model=True):
     """sets ob.status in {'proved','failed','unknown'}"""
     t0 = time.time()
@@ -75,6 +91,17 @@ def discharge(ob, tier="quick", want_model=True):
     else:
         ob.status = "unknown"
         ob.detail = s.reason_unknown()
+        if tier != "canary":
+            # quantifier instantiation is sensitive to term numbering inherited from earlier queries of this
+            # process: re-ask in a fresh context and with other seeds before giving up (same rlimit each time)
+            for attempt in range(3):
+                r2 = _fresh_context_check(ob.pc, goal, rl, seed=attempt)
+                if r2 == "unsat":
+                    ob.status, ob.backend = "proved", "z3-%s(api, fresh context, seed %d)" % (z3.get_version_string(), attempt)
+                    ob.time = time.time() - t0
+                    return ob
+                if r2 == "sat":
+                    break
         if tier == "canary":
             ob.time = time.time() - t0
             return ob
